@@ -284,11 +284,43 @@ def chunks(items, n):
     return [items[i:i + size] for i in range(0, len(items), size)]
 
 
+class CaseTimeout(Exception):
+    """A single case did not terminate (e.g. the library walks a cyclic parent chain)."""
+
+
+class time_limit(object):
+    """with time_limit(seconds): ...  raises CaseTimeout inside the block (worker processes, main thread)."""
+
+    def __init__(self, seconds):
+        self.seconds = seconds
+
+    def _fire(self, signum, frame):
+        raise CaseTimeout("no result after %s s" % self.seconds)
+
+    def __enter__(self):
+        import signal
+
+        self.old_handler = signal.signal(signal.SIGALRM, self._fire)
+        self.old_timer = signal.setitimer(signal.ITIMER_REAL, self.seconds)
+        self.t0 = time.time()
+        return self
+
+    def __exit__(self, *exc):
+        import signal
+
+        signal.setitimer(signal.ITIMER_REAL, 0)
+        signal.signal(signal.SIGALRM, self.old_handler)
+        if self.old_timer and self.old_timer[0] > 0:
+            signal.setitimer(signal.ITIMER_REAL, max(0.01, self.old_timer[0] - (time.time() - self.t0)))
+        return False
+
+
 def guard(t, pid, case, fn, *args, **kw):
     """Run one case; an unexpected exception while the real code (or the comparison of its junk result) is
     evaluated is a finding about the code under test, not a harness crash."""
     try:
-        return fn(*args, **kw)
+        with time_limit(kw.pop("_limit", 20)):
+            return fn(*args, **kw)
     except HarnessError:
         raise
     except Exception as exc:  # noqa
